@@ -279,6 +279,12 @@ def make_case(slot, rnd, variant=0, frame=69888, ia=32):
             w = rnd.choice(B16)
         if w is not None:
             ins[len(lead)], ins[len(lead) + 1] = w & 255, w >> 8
+    if lead[0] in (0xDD, 0xFD):
+        # the index displacement at the ends of its signed range in fixed variants (0x80 = -128, the only value whose
+        # sign extension differs between '< 128' and '<= 128')
+        d = {4: 0x80, 5: 0x7F, 6: 0xFF, 7: 0x00, 8: 0x81}.get(variant % 12)
+        if d is not None:
+            ins[2] = d
     regs = [0] * N_REGS
     for i in (A, F, B, C, D, E, H, L, IXh, IXl, IYh, IYl, I, R, 16, 17, 18, 19, 20, 21, 22, 23):
         regs[i] = r8(rnd)
@@ -287,6 +293,11 @@ def make_case(slot, rnd, variant=0, frame=69888, ia=32):
             v = r16(rnd)
             regs[hi], regs[hi + 1] = v >> 8, v & 255
     regs[SP] = r16(rnd)
+    if lead[0] in (0xDD, 0xFD) and variant % 12 in (4, 5, 6, 7, 8):
+        # ... with the index register well inside RAM, so that both IX+d and the wrong IX-d/IX+256-d would show
+        for hi in (IXh, IYh):
+            v = rnd.choice((0x8000, 0x9ABC, 0xC080, 0x6100))
+            regs[hi], regs[hi + 1] = v >> 8, v & 255
     if variant % len(EDGE_W) in (1, 2):
         regs[A] = 0xFF if variant % len(EDGE_W) == 1 else 0x00      # with the 0xFFFF / 0x3FFF immediates: A:n = 0xFFFF after IN A,(0xFF)
     # the stack pointer at the ROM/RAM/64K edges in fixed variants of every slot (pushes and pops split over the edge)
